@@ -7,6 +7,7 @@ import (
 	"bytes"
 	"context"
 	"encoding/binary"
+	"encoding/json"
 	"fmt"
 	"io"
 	"math/rand"
@@ -17,6 +18,7 @@ import (
 
 	"github.com/TarsCloud/TarsGo/tars"
 	"github.com/TarsCloud/TarsGo/tars/protocol"
+	"github.com/TarsCloud/TarsGo/tars/protocol/res/requestf"
 	"github.com/TarsCloud/TarsGo/tars/transport"
 )
 
@@ -83,6 +85,7 @@ type recProto struct {
 	mu     sync.Mutex
 	pkgs   [][]byte
 	client bool
+	adapter bool         // client side: frame with the real AdapterProxy.ParsePackage (what a ServantProxy's transport client calls)
 	slow   time.Duration // server side: time one Invoke takes
 }
 
@@ -92,6 +95,27 @@ var (
 	c07ServerProto = tars.VerifNewProtocol(nil, nil, false)
 	c07ClientProto = &protocol.TarsProtocol{}
 )
+
+// c07Adapter: the adapter proxy of a real ServantProxy for a direct endpoint (nothing is dialled: only its ParsePackage is used)
+var (
+	c07AdpOnce sync.Once
+	c07Adp     *tars.AdapterProxy
+)
+
+func c07Adapter() *tars.AdapterProxy {
+	c07AdpOnce.Do(func() {
+		comm := tars.NewCommunicator()
+		h := &c09Holder{}
+		comm.StringToProxy("VerifApp.C07Server.C07Obj@tcp -h 127.0.0.1 -p 1 -t 60000", h)
+		if sp, ok := h.s.(*tars.ServantProxy); ok {
+			sp.TarsSetTimeout(300)
+			// the adapter learns its proxy in doInvoke: one one-way call to a port that refuses connections
+			_ = sp.TarsInvoke(context.Background(), 1, "noop", []byte{}, nil, nil, &requestf.ResponsePacket{})
+			c07Adp = tars.VerifWarmAdapter(sp)
+		}
+	})
+	return c07Adp
+}
 
 func (r *recProto) add(pkg []byte) {
 	r.mu.Lock()
@@ -106,6 +130,9 @@ func (r *recProto) Invoke(ctx context.Context, pkg []byte) []byte {
 	return []byte{0, 0, 0, 4}
 }
 func (r *recProto) ParsePackage(b []byte) (int, int) {
+	if r.adapter {
+		return c07Adapter().ParsePackage(b)
+	}
 	if r.client {
 		return c07ClientProto.ParsePackage(b)
 	}
@@ -132,7 +159,7 @@ type c07Case struct {
 func c07Run(c *c07Case) []Failure {
 	protocol.SetMaxPackageLength(c.Max)
 	conn := &scriptConn{chunks: cloneChunks(fromB(c.Chunks)), hookAt: -1}
-	rec := &recProto{client: c.Side == "client"}
+	rec := &recProto{client: c.Side == "client" || c.Side == "client-adapter", adapter: c.Side == "client-adapter"}
 	switch c.Side {
 	case "server-pool1":
 		transport.VerifServerRecv(rec, &transport.TarsServerConf{Proto: "tcp", Address: "127.0.0.1:0", MaxInvoke: 1, QueueCap: 1000, IdleTimeout: time.Hour, ReadTimeout: time.Second}, conn)
@@ -146,7 +173,7 @@ func c07Run(c *c07Case) []Failure {
 			func(ts *transport.TarsServer) { srv = ts })
 	case "server-nopool":
 		transport.VerifServerRecv(rec, &transport.TarsServerConf{Proto: "tcp", Address: "127.0.0.1:0", IdleTimeout: time.Hour, ReadTimeout: time.Second}, conn)
-	case "client":
+	case "client", "client-adapter":
 		transport.VerifClientRecv(rec, &transport.TarsClientConf{Proto: "tcp", QueueLen: 10, ReadTimeout: time.Second, IdleTimeout: time.Hour}, conn)
 	}
 	// handlers run in goroutines: wait until the count is stable
@@ -289,17 +316,17 @@ func partition(rng *rand.Rand, stream []byte, mode string) [][]byte {
 
 func c07Gen(tier string, rng *rand.Rand) []c07Case {
 	var cs []c07Case
-	n := 48
+	n := 60
 	if tier == "thorough" {
-		n = 520
+		n = 650
 	}
 	maxes := []int{4, 5, 8, 64, 300, 4096, 10485760, 2147483647, 2147483648, 4294967295}
-	sides := []string{"server-pool1", "server-nopool", "client", "server-pool1q1"}
+	sides := []string{"server-pool1", "server-nopool", "client", "server-pool1q1", "client-adapter"}
 	modes := []string{"single", "coalesced", "header-cut", "random"}
 	for _, max := range maxes {
 		for it := 0; it < n; it++ {
-			side := sides[it%4]
-			mode := modes[(it/4)%4]
+			side := sides[it%5]
+			mode := modes[(it/5)%4]
 			npk := 1 + rng.Intn(12)
 			if mode == "single" {
 				npk = 1 + rng.Intn(5)
@@ -423,6 +450,21 @@ func c07Gen(tier string, rng *rand.Rand) []c07Case {
 			}
 		}
 	}
+	// a packet of exactly the default maximum (10 MiB) with small neighbours in the same reads, on every side (monitor only)
+	for i, side := range sides {
+		if tier != "thorough" && i%2 == 1 {
+			continue
+		}
+		c := c07Case{Side: side, Max: 10485760, BadAt: -1, Kind: "legal/large-then-small/exact-default-max"}
+		var stream []byte
+		for k, sz := range []int{16, 10485760, 24, 9} {
+			p := mkPacket(rng, sz, k)
+			c.Sent = append(c.Sent, p)
+			stream = append(stream, p...)
+		}
+		c.Chunks = toB(partition(rng, stream, "coalesced"))
+		cs = append(cs, c)
+	}
 	// graceful shutdown while a packet is half received (server side): the stream ends with that packet; the server is
 	// marked closed at a read timeout that fires inside it (after 1..len-1 of its bytes), further timeouts may follow
 	nsh := 12
@@ -472,11 +514,27 @@ func init() {
 		runProp(Prop[c07Case]{
 			ID: "C07", Require: "From TarsV Require Import Base.Hex Frame.Framing.", CaseType: "c07_case",
 			Mismatch: "failing_from c07_check", Corr: "Framing.c07_check (recv_loop = real tcpHandler.recv / connection.recv over a scripted net.Conn)",
-			Rule:    "generated streams of 1-12 length-prefixed packets (sizes 4, max-1, max, random) for max in {4,5,8,64,300,4096,10485760,2^31-1,2^31,2^32-1}, optionally followed by a proper prefix or an illegal length prefix (0-3, max+1, >max, 2^31.., 2^32-1) plus junk, partitioned into reads as single bytes / coalesced 4096-byte reads / cuts inside headers / random; run through the real server loop (1-worker pool: ordered; 1-worker pool with a queue of one and 3 ms handlers, so that bursts fill the queue: ordered; no pool: multiset) and the real client loop; plus child processes that load a server configuration with maxPackageLength = N through the application's own initialisation and report the framing functions' verdicts on packets of N and N+1 bytes; plus server-side streams whose last packet is half received when graceful shutdown begins (server marked closed at a read timeout inside the packet); class = (side, max, stream kind, partition mode)",
+			Rule:    "generated streams of 1-12 length-prefixed packets (sizes 4, max-1, max, random) for max in {4,5,8,64,300,4096,10485760,2^31-1,2^31,2^32-1}, optionally followed by a proper prefix or an illegal length prefix (0-3, max+1, >max, 2^31.., 2^32-1) plus junk, partitioned into reads as single bytes / coalesced 4096-byte reads / cuts inside headers / random; run through the real server loop (1-worker pool: ordered; 1-worker pool with a queue of one and 3 ms handlers, so that bursts fill the queue: ordered; no pool: multiset) and the real client loop; plus a real TCP server with a non-zero ReadTimeout whose peer pauses inside and between packets for several read timeouts; plus child processes that load a server configuration with maxPackageLength = N through the application's own initialisation and report the framing functions' verdicts on packets of N and N+1 bytes; plus server-side streams whose last packet is half received when graceful shutdown begins (server marked closed at a read timeout inside the packet); class = (side, max, stream kind, partition mode)",
 			Shard:   80,
 			Workers: 1, // maxPackageLength is process-global
 			Gen:     c07Gen, Run: c07Run, Coq: c07Coq,
-			Extra:   func(tier string, rng *rand.Rand, res *Result) { c07Reconnect(tier, rng, res); c07Config(tier, rng, res) },
+			Extra:   func(tier string, rng *rand.Rand, res *Result) { c07Reconnect(tier, rng, res); c07Config(tier, rng, res); c07Pauses(tier, rng, res) },
+			ReplayExtra: func(raw json.RawMessage, res *Result) bool {
+				var m map[string]interface{}
+				if json.Unmarshal(raw, &m) != nil {
+					return false
+				}
+				r := rand.New(rand.NewSource(1))
+				if m["c07_pauses"] == true {
+					c07Pauses("quick", r, res)
+					return true
+				}
+				if m["c07_config"] == true {
+					c07Config("quick", r, res)
+					return true
+				}
+				return false
+			},
 			RunAll: func(cs []c07Case) [][]Failure {
 				fails := make([][]Failure, len(cs))
 				byMax := map[int][]int{}
